@@ -111,76 +111,80 @@ def run(ctx):
         it.domain_sign = _gain_at_least_one
         outs = it.run(fi)
         rets = [o for o in outs if o.kind == "return"]
-        if len(rets) != 1 or not isinstance(rets[0].value, ObjV):
+        if not rets or not all(isinstance(o.value, ObjV) for o in rets):
             ctx.unknown("C10.1", fi, fi.node, f"EDFA [{case}]", f"{len(rets)} return paths / not a signal object")
             continue
-        out, node = rets[0].value, rets[0].node
-        # ---- two polarisations
-        cons = [r for r in it.calls if r.depth == 0 and r.callee == "opticomlib.typing.optical_signal"]
-        two = [r for r in cons if (r.kwargs.get("n_pol") == Form.num(2)) or (len(r.args) > 2 and r.args[2] == Form.num(2))]
-        ctx.check("C10.2", bool(two), fi, two[0].node if two else node, f"EDFA [{case}] output built with n_pol=2", "always two polarisations",
-                  "output is not constructed with two polarisations")
-        # ---- signal
-        sig, srow, sval = strip_setitem(out.fields.get("signal"))
-        if not isinstance(sig, Form):
-            ctx.unknown("C10.1", fi, node, f"EDFA [{case}] signal", "not a form")
-            continue
-        ctx.check("C10.1", sig == g * S("input.signal"), fi, node, f"EDFA [{case}] output.signal = {sig!r}", "input.signal * 10^(G/20)",
-                  f"signal part is not the input signal times sqrt(G)={g!r}")
-        if has_fn(sig, "numpy.random.randn") or has_fn(sig, "numpy.random.normal"):
-            ctx.violation("C10.3", fi, node, f"EDFA [{case}] output.signal = {sig!r}", "ASE is added to the signal component instead of the noise component")
-        if npol == 1:
-            ok = srow is not None and srow == Form.num(1) and _is_zero(sval)
-            ctx.check("C10.2", ok, fi, node, f"EDFA [{case}] signal row cleared: {srow!r}", "y row of the signal cleared", "y-polarisation of a one-polarisation input carries signal")
-        else:
-            ctx.check("C10.2", srow is None, fi, node, f"EDFA [{case}] signal rows kept", "both rows amplified", "a polarisation row of a two-polarisation input is cleared")
-        # ---- noise
-        nz = out.fields.get("noise")
-        if not isinstance(nz, Form):
-            ctx.violation("C10.3", fi, node, f"EDFA [{case}] output.noise = {nz!r}", "output carries no ASE noise component")
-            continue
-        inpart, ase = split_terms(nz, lambda t: has_sym(t, "input.noise"))
-        if noise == "none":
-            ctx.check("C10.1", inpart.is_zero(), fi, node, f"EDFA [{case}] input-derived noise = {inpart!r}", "none", "noise-free input produces input-derived noise")
-        else:
-            base, nrow, nval = strip_setitem(inpart)
-            if not isinstance(base, Form) or not has_sym(base, "input.noise"):
-                ctx.unknown("C10.1", fi, node, f"EDFA [{case}] noise part {inpart!r}", "cannot isolate the input-derived noise term")
+        base_case = case
+        for k_, ret_ in enumerate(rets):
+            # every return path is an output of the amplifier: an early exit for a "trivial" gain has to satisfy the same clauses
+            case = base_case if len(rets) == 1 else f"{base_case}, return path {k_ + 1} of {len(rets)}"
+            out, node = ret_.value, ret_.node
+            # ---- two polarisations
+            cons = [r for r in it.calls if r.depth == 0 and r.callee == "opticomlib.typing.optical_signal"]
+            two = [r for r in cons if (r.kwargs.get("n_pol") == Form.num(2)) or (len(r.args) > 2 and r.args[2] == Form.num(2))]
+            ctx.check("C10.2", bool(two), fi, two[0].node if two else node, f"EDFA [{case}] output built with n_pol=2", "always two polarisations",
+                      "output is not constructed with two polarisations")
+            # ---- signal
+            sig, srow, sval = strip_setitem(out.fields.get("signal"))
+            if not isinstance(sig, Form):
+                ctx.unknown("C10.1", fi, node, f"EDFA [{case}] signal", "not a form")
+                continue
+            ctx.check("C10.1", sig == g * S("input.signal"), fi, node, f"EDFA [{case}] output.signal = {sig!r}", "input.signal * 10^(G/20)",
+                      f"signal part is not the input signal times sqrt(G)={g!r}")
+            if has_fn(sig, "numpy.random.randn") or has_fn(sig, "numpy.random.normal"):
+                ctx.violation("C10.3", fi, node, f"EDFA [{case}] output.signal = {sig!r}", "ASE is added to the signal component instead of the noise component")
+            if npol == 1:
+                ok = srow is not None and srow == Form.num(1) and _is_zero(sval)
+                ctx.check("C10.2", ok, fi, node, f"EDFA [{case}] signal row cleared: {srow!r}", "y row of the signal cleared", "y-polarisation of a one-polarisation input carries signal")
             else:
-                if base == g * S("input.noise"):
-                    ctx.holds("C10.1", fi, node, f"EDFA [{case}] input noise gain", "input.noise * 10^(G/20)")
-                else:
-                    via = _mul_branch(it)
-                    ctx.violation("C10.1", fi, _mul_node(fi) or node, f"EDFA input noise reaches the output as {base!r}",
-                                  f"the input's noise component is not amplified by sqrt(G)={g!r}{via}: output OSNR exceeds input OSNR")
-                if npol == 1:
-                    ok = nrow is not None and nrow == Form.num(1) and _is_zero(nval)
-                    ctx.check("C10.2", ok, fi, _row_node(fi) or node, "EDFA one-polarisation input: y row of the input-derived noise",
-                              "cleared like the signal row", "the y row is cleared for the signal only: the input's noise appears in the y polarisation")
-                else:
-                    ctx.check("C10.2", nrow is None, fi, node, f"EDFA [{case}] noise rows kept", "both rows amplified", "a noise row of a two-polarisation input is cleared")
-        # ---- ASE
-        randn = [r for r in it.calls if r.callee in ("numpy.random.randn", "numpy.random.standard_normal", "numpy.random.normal")]
-        if len(randn) != 1:
-            ctx.violation("C10.3", fi, node, f"EDFA [{case}] ASE draws", f"expected one randn(4, N) draw, found {len(randn)}")
-            continue
-        r = randn[0]
-        ra = r.result.single_atom() if isinstance(r.result, Form) else None   # canonical form: standard_normal((4, N)) == randn(4, N)
-        rargs = list(ra[2]) if ra and ra[0] == "fn" and ra[1] == "numpy.random.randn" and not ra[3] else []
-        n_arg = rargs[1] if len(rargs) > 1 else None
-        ok = bool(_ase_layouts(rargs, mk_fn("siglen", [S("input.signal")])))
-        ctx.check("C10.3", ok, fi, r.node, src_of(r.node), "four independent real N-sample quadratures in one draw", "ASE draw is not randn(4, N) (or (2, N, 2) / (2, 2, N)): the four quadratures are not independent arrays of the input length")
-        X = fpow(P_ase / 4, Fraction(1, 2)) * r.result
-        want = Form.atom(("idx", X, SliceV(Const(None), Form.num(2), Const(None)))) + Form.num(0, 1) * Form.atom(("idx", X, SliceV(Form.num(2), Const(None), Const(None))))
-        if ase == want or _ase_matches(ase, P_ase, r):
-            ctx.holds("C10.3", fi, node, f"EDFA [{case}] ASE = rows[:2] + j*rows[2:], rows = sqrt(P_ase/4)*randn(4,N)", f"P_ase = {P_ase!r}")
-        else:
-            # diagnose P_ase
-            pa = it.final_env.get("P_ase") if it.final_env else None
-            if isinstance(pa, Form) and pa != P_ase:
-                ctx.violation("C10.3", fi, node, f"P_ase = {pa!r}", f"ASE power differs from NF*h*f0*(G-1)*fs = {P_ase!r}")
+                ctx.check("C10.2", srow is None, fi, node, f"EDFA [{case}] signal rows kept", "both rows amplified", "a polarisation row of a two-polarisation input is cleared")
+            # ---- noise
+            nz = out.fields.get("noise")
+            if not isinstance(nz, Form):
+                ctx.violation("C10.3", fi, node, f"EDFA [{case}] output.noise = {nz!r}", "output carries no ASE noise component")
+                continue
+            inpart, ase = split_terms(nz, lambda t: has_sym(t, "input.noise"))
+            if noise == "none":
+                ctx.check("C10.1", inpart.is_zero(), fi, node, f"EDFA [{case}] input-derived noise = {inpart!r}", "none", "noise-free input produces input-derived noise")
             else:
-                ctx.violation("C10.3", fi, node, f"EDFA [{case}] ASE term = {ase!r}", f"ASE is not sqrt(P_ase/4)*randn rows combined as rows[:2]+j*rows[2:] (expected {want!r})")
+                base, nrow, nval = strip_setitem(inpart)
+                if not isinstance(base, Form) or not has_sym(base, "input.noise"):
+                    ctx.unknown("C10.1", fi, node, f"EDFA [{case}] noise part {inpart!r}", "cannot isolate the input-derived noise term")
+                else:
+                    if base == g * S("input.noise"):
+                        ctx.holds("C10.1", fi, node, f"EDFA [{case}] input noise gain", "input.noise * 10^(G/20)")
+                    else:
+                        via = _mul_branch(it)
+                        ctx.violation("C10.1", fi, _mul_node(fi) or node, f"EDFA input noise reaches the output as {base!r}",
+                                      f"the input's noise component is not amplified by sqrt(G)={g!r}{via}: output OSNR exceeds input OSNR")
+                    if npol == 1:
+                        ok = nrow is not None and nrow == Form.num(1) and _is_zero(nval)
+                        ctx.check("C10.2", ok, fi, _row_node(fi) or node, "EDFA one-polarisation input: y row of the input-derived noise",
+                                  "cleared like the signal row", "the y row is cleared for the signal only: the input's noise appears in the y polarisation")
+                    else:
+                        ctx.check("C10.2", nrow is None, fi, node, f"EDFA [{case}] noise rows kept", "both rows amplified", "a noise row of a two-polarisation input is cleared")
+            # ---- ASE
+            randn = [r for r in it.calls if r.callee in ("numpy.random.randn", "numpy.random.standard_normal", "numpy.random.normal")]
+            if len(randn) != 1:
+                ctx.violation("C10.3", fi, node, f"EDFA [{case}] ASE draws", f"expected one randn(4, N) draw, found {len(randn)}")
+                continue
+            r = randn[0]
+            ra = r.result.single_atom() if isinstance(r.result, Form) else None   # canonical form: standard_normal((4, N)) == randn(4, N)
+            rargs = list(ra[2]) if ra and ra[0] == "fn" and ra[1] == "numpy.random.randn" and not ra[3] else []
+            n_arg = rargs[1] if len(rargs) > 1 else None
+            ok = bool(_ase_layouts(rargs, mk_fn("siglen", [S("input.signal")])))
+            ctx.check("C10.3", ok, fi, r.node, src_of(r.node), "four independent real N-sample quadratures in one draw", "ASE draw is not randn(4, N) (or (2, N, 2) / (2, 2, N)): the four quadratures are not independent arrays of the input length")
+            X = fpow(P_ase / 4, Fraction(1, 2)) * r.result
+            want = Form.atom(("idx", X, SliceV(Const(None), Form.num(2), Const(None)))) + Form.num(0, 1) * Form.atom(("idx", X, SliceV(Form.num(2), Const(None), Const(None))))
+            if ase == want or _ase_matches(ase, P_ase, r):
+                ctx.holds("C10.3", fi, node, f"EDFA [{case}] ASE = rows[:2] + j*rows[2:], rows = sqrt(P_ase/4)*randn(4,N)", f"P_ase = {P_ase!r}")
+            else:
+                # diagnose P_ase
+                pa = it.final_env.get("P_ase") if it.final_env else None
+                if isinstance(pa, Form) and pa != P_ase:
+                    ctx.violation("C10.3", fi, node, f"P_ase = {pa!r}", f"ASE power differs from NF*h*f0*(G-1)*fs = {P_ase!r}")
+                else:
+                    ctx.violation("C10.3", fi, node, f"EDFA [{case}] ASE term = {ase!r}", f"ASE is not sqrt(P_ase/4)*randn rows combined as rows[:2]+j*rows[2:] (expected {want!r})")
     # ---- C10.5: ASE (complex) must not be accumulated in place into a component whose dtype is the input's
     import ast
     it = Interp(pkg, assumptions={"BW": None, "input.noise": "notnone", "input.n_pol": 2}, param_classes={"input": "optical_signal"})
